@@ -211,7 +211,11 @@ pub fn run<W: Write>(opts: &Opts, out: &mut W) {
                 p.extend_from_slice(&[1, 0, 0, 1, 0, 0, 9, 0, 0, 0]);
                 p.extend(chunk(b"VP8 ", VP8_DATA));
                 if r.chance(1, 2) { p.extend(chunk(b"unkn", &r.bytes(3))); }
-                if r.chance(1, 6) { p.extend(chunk(b"EXIF", &r.bytes(3))); }
+                if r.chance(1, 2) {
+                    // a KNOWN chunk after the frame data: never admitted, whatever the option says
+                    let name: &[u8; 4] = *r.pick(&[b"ALPH", b"ANMF", b"ANIM", b"EXIF", b"ICCP", b"VP8 ", b"VP8L", b"VP8X", b"XMP "]);
+                    p.extend(chunk(name, &r.bytes(3)));
+                }
                 chunks.push(chunk(b"ANMF", &p));
             } else {
                 if flags & 0x10 != 0 { chunks.push(chunk(b"ALPH", &pl.alph_for(2, 2))); }
@@ -223,8 +227,11 @@ pub fn run<W: Write>(opts: &Opts, out: &mut W) {
         // trailing chunks: unknown ones, and sometimes a known one out of place
         for _ in 0..r.below(4) {
             chunks.push(match r.below(8) {
-                0 => chunk(b"EXIF", &r.bytes(1)),
-                1 => chunk(b"VP8 ", VP8_DATA),
+                0 | 1 => {
+                    let name: &[u8; 4] = *r.pick(&[b"ALPH", b"ANMF", b"ANIM", b"EXIF", b"ICCP", b"VP8 ", b"VP8L", b"VP8X", b"XMP "]);
+                    let n = r.below(20) as usize;
+                    chunk(name, &r.bytes(n))
+                }
                 2 => chunk(b"ANMF", &[0; 16]),
                 3 => chunk(b"RIFF", &r.bytes(2)),
                 _ => {
